@@ -1398,7 +1398,12 @@ def run(ctx):
         "exactness of float arithmetic on the generated dyadic inputs (checked: every "
         "compared value is converted to an exact fraction)",
         "strong convergence order and the common limit of the schemes are not proved "
-        "[NUM]"]
+        "[NUM]",
+        "mathcomp.algebra_tactics `ring` (reflexive, used in Proofs/C17_sse_norm.v); it "
+        "brings the Int63 / PrimFloat kernel primitives into coqchk's context summary - "
+        "no theorem depends on them (Print Assumptions closed)",
+        "tools/tx_c17_o15.py (translator of Taylor15.step / Taylor15_imp.step: its "
+        "supported subset is the modelled part; dz and the final linear solve are outside)"]
 
     def search(failed, log):
         r2 = random.Random(ctx.seed + 1)
